@@ -291,7 +291,7 @@ func tiny(rnd *rand.Rand) ref.Msg {
 }
 
 func TestRun(t *testing.T) {
-	rec := vr.New("C07", "message sequences (1..30 messages: every stream length class 0-12/13-268/269-65804/65805+, token lengths 0..8, ordinary codes and the signalling codes CSM/Ping/Pong/Release/Abort) x segmentations (ALL 2^(n-1) cut sets for streams of n <= 12 bytes (quick) / 16 (thorough); byte-wise; single chunk; a cut at every offset; cuts inside and around every frame header; PRNG cuts) x read-buffer sizes {1,2,3,7,64,2048}; with and without a request monitor that drops a deterministic subset (handler must see the rest, monitor must see all); oversize frames (declared length max+1.., 32-bit extended lengths near 2^32) fed header-only and with following frames. Distinct = distinct (stream, cut set, buffer size).")
+	rec := vr.New("C07", "message sequences (1..30 messages: every stream length class 0-12/13-268/269-65804/65805+, token lengths 0..8, ordinary codes and the signalling codes CSM/Ping/Pong/Release/Abort) x segmentations (ALL 2^(n-1) cut sets for streams of n <= 12 bytes (quick) / 16 (thorough); byte-wise; single chunk; a cut at every offset; cuts inside and around every frame header; PRNG cuts) x read-buffer sizes {1,2,3,7,64,2048}; maximum message size = the largest frame of the stream / a few bytes more / far larger; with and without a request monitor that drops a deterministic subset (handler must see the rest, monitor must see all); oversize frames (declared length max+1.., 32-bit extended lengths near 2^32) fed header-only and with following frames. Distinct = distinct (stream, cut set, buffer size).")
 	defer rec.Flush(true)
 	seed := vr.Seed()
 	caches := []int{1, 2, 3, 7, 64, 2048}
@@ -306,6 +306,7 @@ func TestRun(t *testing.T) {
 	for s := 0; s < nShort; s++ {
 		var msgs []ref.Msg
 		var stream []byte
+		maxFrame := 0
 		for tries := 0; tries < 50; tries++ {
 			m := tiny(rnd)
 			e := ref.EncodeTCP(m)
@@ -317,6 +318,9 @@ func TestRun(t *testing.T) {
 			}
 			msgs = append(msgs, m)
 			stream = append(stream, e...)
+			if len(e) > maxFrame {
+				maxFrame = len(e)
+			}
 		}
 		want, _ := ref.ParseTCPStream(stream)
 		n := len(stream)
@@ -331,7 +335,10 @@ func TestRun(t *testing.T) {
 						cuts = append(cuts, b+1)
 					}
 				}
-				fc := fcase{Msgs: len(want2), StreamLen: n, Cuts: cuts, CutMode: "all-cut-sets", Cache: cache, MaxSize: 64 * 1024, Filter: s%2 == 1}
+				// the maximum message size is a limit on ONE frame: a limit equal to the largest frame of the stream
+				// must not refuse a stream in which several frames (or a frame tail and the next frames) share a read
+				maxSize := []uint32{uint32(maxFrame), uint32(maxFrame) + 1, 64 * 1024}[(mask/7)%3]
+				fc := fcase{Msgs: len(want2), StreamLen: n, Cuts: cuts, CutMode: "all-cut-sets", Cache: cache, MaxSize: maxSize, Filter: s%2 == 1}
 				runStream(rec, fc, stream2, cuts, want2)
 				rec.Eval(fmt.Sprintf("cs|%x|%d|%d|%v", stream2, mask, cache, fc.Filter))
 				rec.Count("cut_sets_enumerated", 1)
@@ -353,6 +360,7 @@ func TestRun(t *testing.T) {
 			var msgs []ref.Msg
 			var stream []byte
 			var bounds []int
+			maxFrame := 0
 			big := i%12 == 0
 			for j := 0; j < k; j++ {
 				m := gen.Msg(r, r.Intn(1<<16), big && j == 0)
@@ -376,6 +384,9 @@ func TestRun(t *testing.T) {
 					}
 				}
 				e := ref.EncodeTCP(m)
+				if len(e) > maxFrame {
+					maxFrame = len(e)
+				}
 				h, _ := ref.ParseTCPHeader(e)
 				off := len(stream)
 				bounds = append(bounds, off, off+1, off+h.HeaderLen-1, off+h.HeaderLen, off+h.HeaderLen+1, off+len(e)-1)
@@ -439,7 +450,8 @@ func TestRun(t *testing.T) {
 			}
 			for ci, cs := range cutSets {
 				cache := caches[(i+ci)%len(caches)]
-				fc := fcase{Msgs: len(msgs), StreamLen: n, CutMode: mode, Cache: cache, MaxSize: 1 << 20, Seed: gs, Filter: (i/6)%3 == 2}
+				maxSize := []uint32{uint32(maxFrame), 1 << 20, uint32(maxFrame) + 3}[(i+ci)%3]
+				fc := fcase{Msgs: len(msgs), StreamLen: n, CutMode: mode, Cache: cache, MaxSize: maxSize, Seed: gs, Filter: (i/6)%3 == 2}
 				if len(cs) <= 12 {
 					fc.Cuts = cs
 				}
